@@ -148,6 +148,10 @@ def history_plan(rng, tier, levels, silent_streak=False, identity_changes=True, 
             elif r < 0.38:
                 # a perfectly good answer whose header elements use long-form lengths
                 scripts[key] = {"replies": [{"k": "genuine", "rewrite": {"widths": gen.widths(rng, True)}}]}
+            elif r < 0.46 and r >= 0.42:
+                # the agent answers with an unauthenticated Report (unknown user, wrong digest, ...) that
+                # says boots 0 / time 0 - e.g. right after it lost its configuration
+                scripts[key] = {"replies": [{"k": "custom", "pdu": "report", "varbinds": [["1.3.6.1.6.3.15.1.1.%d.0" % rng.choice([1, 3, 4, 5, 6]), ["counter32", rng.randrange(2**32)]]], "rewrite": {"noauth": 1, "boots": rng.choice([0, 0, 1]), "time": rng.choice([0, 0, 5])}}]}
             elif r < 0.42:
                 # ... or which announces another msgMaxSize (484..2^31-1 are all legal)
                 scripts[key] = {"replies": [{"k": "genuine", "rewrite": {"max-size": rng.choice([484, 485, 1472, 65507, 65535, 65536, 2**31 - 2, 2**31 - 1])}}]}
